@@ -101,7 +101,8 @@ class C18(Prop):
                 terms.append([w[:-1] + [rng.choice((0, 2))], rng.choice((1, -1, 3)), 0, a + (1 if j % 2 else 0)])
             yield {"k": "sbrg", "n": n, "terms": terms, "pkg": "py", "commuting": True}
             # arbitrary Hamiltonian: only the diagonal form is required
-            terms = [[[rng.randrange(4) for _ in range(n)] + [0], rng.choice((1, -1, 3, 5)), 0, a] for a in range(rng.randrange(2, 6))]
+            # (coefficients are +-2^-a so that the perturbative step, which divides by the leading coefficient, stays dyadic)
+            terms = [[[rng.randrange(4) for _ in range(n)] + [0], rng.choice((1, -1)), 0, a] for a in range(rng.randrange(2, 6))]
             yield {"k": "sbrg", "n": n, "terms": terms, "pkg": "py", "commuting": False}
 
     def execute(self, scn, be):
